@@ -1046,7 +1046,7 @@ macro_rules! impl_proto {
             fn generic_seal(key: &KeyMat, ops: &[ClaimOp], footer: Option<&str>, ia: Option<&str>) -> (Out<String>, Vec<&'static str>) {
                 guard(
                     || -> Result<String, HErr<GenericBuilderError>> {
-                        let mut b = GenericBuilder::<$V, $Pu>::default();
+                        let mut b = (if ctor_turn() % 2 == 0 { GenericBuilder::<$V, $Pu>::default() } else { GenericBuilder::<$V, $Pu>::new() });
                         for op in ops {
                             match op {
                                 ClaimOp::Set(c) => set_claim_on!(b, c).map_err(HErr::ClaimCtor)?,
@@ -1072,7 +1072,7 @@ macro_rules! impl_proto {
                 let mut outs = Vec::with_capacity(n);
                 if reuse {
                     // one builder, claims re-set before each build (so that a draining builder still gets identical claims)
-                    let mut b = GenericBuilder::<$V, $Pu>::default();
+                    let mut b = (if ctor_turn() % 2 == 0 { GenericBuilder::<$V, $Pu>::default() } else { GenericBuilder::<$V, $Pu>::new() });
                     if let Some(f) = footer {
                         b.set_footer(Footer::from(f));
                     }
@@ -1109,7 +1109,7 @@ macro_rules! impl_proto {
                 guard(
                     || -> Result<Value, HErr<GenericParserError>> {
                         open_keys_h!($kind, $V, key, |k| {
-                            let mut p = GenericParser::<$V, $Pu>::default();
+                            let mut p = (if ctor_turn() % 2 == 0 { GenericParser::<$V, $Pu>::default() } else { GenericParser::<$V, $Pu>::new() });
                             Self::configure_generic(&mut p, cfg).map_err(HErr::ClaimCtor)?;
                             p.parse(token, &k).map_err(HErr::Lib)
                         })
@@ -1122,7 +1122,7 @@ macro_rules! impl_proto {
                 let r = (|| -> Result<Vec<(Out<Value>, Vec<(String, Value)>)>, HErr<GenericParserError>> {
                     open_keys_h!($kind, $V, key, |k| {
                         let mut res = Vec::new();
-                        let mut p = GenericParser::<$V, $Pu>::default();
+                        let mut p = (if ctor_turn() % 2 == 0 { GenericParser::<$V, $Pu>::default() } else { GenericParser::<$V, $Pu>::new() });
                         Self::configure_generic(&mut p, cfg).map_err(HErr::ClaimCtor)?;
                         for t in tokens {
                             let _ = vlog_take();
@@ -1141,7 +1141,7 @@ macro_rules! impl_proto {
             fn generic_run(key: &KeyMat, ops: &[GOp]) -> Vec<Out<String>> {
                 let mut cur_key: KeyMat = key.clone();
                 let mut outs = Vec::new();
-                let mut b = GenericBuilder::<$V, $Pu>::default();
+                let mut b = (if ctor_turn() % 2 == 0 { GenericBuilder::<$V, $Pu>::default() } else { GenericBuilder::<$V, $Pu>::new() });
                 for op in ops {
                     match op {
                         GOp::Set(c) => {
@@ -1310,7 +1310,7 @@ macro_rules! impl_proto {
                                 }
                             }
                         } else {
-                            let mut p = GenericParser::<$V, $Pu>::default();
+                            let mut p = (if ctor_turn() % 2 == 0 { GenericParser::<$V, $Pu>::default() } else { GenericParser::<$V, $Pu>::new() });
                             Self::configure_generic(&mut p, cfg).map_err(HErr::ClaimCtor)?;
                             for st in steps {
                                 match st {
